@@ -6,7 +6,7 @@
     with the pre-image reproduced byte for byte); statements that need keys to
     differ assume [injective H] explicitly, nothing else is assumed about it. *)
 From Coq Require Import Permutation.
-From HV Require Import Base.Prelude C11.Model C11.Spec C11.Proofs C11.Proofs2.
+From HV Require Import Base.Prelude C11.Model C11.Spec C11.Model2 C11.Spec2 C11.Proofs C11.Proofs2 C11.Proofs3.
 
 (** No boundary shifting: two pre-images with the same sequence of writes in
     which at most one write differs in length are equal only if every single
@@ -154,3 +154,37 @@ Theorem C11_F7_refuted :
     forall H, map sr_out (run_cached H w [] [a; b]) <> map fst (run_fresh w [a; b]).
 Proof. exact F7_refuted. Qed.
 Print Assumptions C11_F7_refuted.
+
+(** ---- the token caches of the client-credentials strategy and of the jwt finalizer ---- *)
+
+(** client credentials: every token served with the cache is the token a fresh
+    request would obtain, for every sequence of configurations whose pre-images
+    cannot be shifted against each other *)
+Theorem C11_cc_cache_transparent : forall H h,
+  (forall x y, H x = H y -> x = y) -> g_cc_F4 h = false ->
+  map sr_out (cc_run H [] h) = map (fun c => OAllow (cc_result c)) h.
+Proof. exact cc_cache_transparent. Qed.
+Print Assumptions C11_cc_cache_transparent.
+
+Theorem C11_cc_F4_refuted :
+  exists a b, g_cc_F4 [a; b] = true /\
+    forall H, map sr_out (cc_run H [] [a; b]) <> map (fun c => OAllow (cc_result c)) [a; b].
+Proof. exact cc_F4_refuted. Qed.
+Print Assumptions C11_cc_F4_refuted.
+
+(** jwt finalizer: for every history of executions and key-store reloads in
+    which no reload puts a new key under a key id used before (guard of C11-F5),
+    every token served with the cache is one a fresh evaluation would issue at
+    that moment: same subject, claims, issuer, key id and signing key *)
+Theorem C11_jf_cache_transparent : forall H kc s h,
+  (forall x y, H x = H y -> x = y) -> g_F5 kc s h = false ->
+  (forall x y, In x (timeline kc s h) -> In y (timeline kc s h) -> p_jf_F4 H x y = false /\ jf_faithful x y) ->
+  map (fun m => sr_out (fst m)) (jrun H kc s [] h) = map snd (jrun H kc s [] h).
+Proof. exact jf_cache_transparent. Qed.
+Print Assumptions C11_jf_cache_transparent.
+
+Theorem C11_F5_refuted :
+  exists kc s h, g_F5 kc s h = true /\
+    forall H, map (fun m => sr_out (fst m)) (jrun H kc s [] h) <> map snd (jrun H kc s [] h).
+Proof. exact F5_refuted. Qed.
+Print Assumptions C11_F5_refuted.
